@@ -1,4 +1,5 @@
 """C05 - every persistence-matrix flavour computes the same, correct barcode."""
+import zlib
 from vlib import core
 from props import pm_common as pm
 
@@ -32,7 +33,7 @@ PRIMES = [2, 3, 5, 7, 11, 13, 65521]
 
 def scripts_for_factory(ctx, ncases):
     def scripts_for(cfg):
-        rng = ctx.rng.__class__(ctx.seed * 7919 + hash(cfg.tag) % 100000)
+        rng = ctx.rng.__class__(ctx.seed * 7919 + zlib.crc32(cfg.tag.encode()) % 100000)
         out = []
         for i in range(ncases):
             cx = pm.random_complex(rng)
